@@ -6,6 +6,7 @@ import Mpir.Proto
 import Mpir.Model.AliasMul
 import Mpir.Model.AliasGcdext
 import Mpir.Model.AliasPowm
+import Mpir.Model.AliasMpf
 namespace Mpir.Ops.Alias2
 open Mpir Mpir.AliasMem
 
@@ -23,7 +24,37 @@ def answer (s0 : St) (byAlloc : Nat → Bool) (r : R St) : Option (List Tok) :=
 /-- an output that may be NULL: 7 -/
 def idxN (x : Int) : Option (Option Nat) := if x = 7 then some none else (idx x).map some
 
+/-- operand token group `prec size exp [limbs]` -/
+def fopnd? : List Tok → Option (Mpf.F × List Tok)
+  | .num p :: .num s :: .num e :: .vec d :: rest =>
+      if p ≥ 2 ∧ s.natAbs = d.length then some (⟨p.toNat, s, e, d⟩, rest) else none
+  | _ => none
+
+def fidx (x : Int) : Option Nat := if 0 ≤ x ∧ x ≤ 2 then some x.toNat else none
+
+def fanswer (r : R FSt) : Option (List Tok) :=
+  match r with
+  | .error e => some [.err e]
+  | .ok s =>
+    some ((List.range 3).flatMap fun i =>
+      [.num (s.prec i), .num (s.st.size i), .num (s.exp i), .vec (s.st.limbs i)])
+
+def frun (f : Nat → Nat → Nat → Nat → FSt → R FSt) : List Tok → Option (List Tok)
+  | .num r :: .num u :: .num v :: .num ui :: rest => do
+    let r ← fidx r; let u ← fidx u; let v ← fidx v
+    if ui < 0 ∨ ui ≥ B then none else
+    let (a0, rest) ← fopnd? rest
+    let (a1, rest) ← fopnd? rest
+    let (a2, rest) ← fopnd? rest
+    if rest ≠ [] then none else
+    fanswer (f r u v ui.toNat (ofFs [a0, a1, a2]))
+  | _ => none
+
 def handle : Handler
+  | "alias_fdiv", args => frun (fun r u v _ => mpf_div r u v) args
+  | "alias_fmul", args => frun (fun r u v _ => mpf_mul r u v) args
+  | "alias_fsqrt", args => frun (fun r u _ _ => mpf_sqrt r u) args
+  | "alias_fdiv_ui", args => frun (fun r u _ ui => mpf_div_ui r u ui) args
   | "alias_mul", [.num w, .num u, .num v, .num _, .num v0, .num v1, .num v2, .num v3] => do
     let w ← idx w; let u ← idx u; let v ← idx v
     let s0 := ofInts [v0, v1, v2, v3]
